@@ -467,6 +467,14 @@ def fs_corpus2():
     steps.append({"ev": "remove", "p": "dir/two.txt"})
     steps.append({"ev": "add", "paths": ["dir/two.txt", "dir/one.txt"]})   # a deleted tracked path and an unchanged one
     steps.append({"ev": "reset", "mode": "hard", "arg": esc("HEAD@{1}")})
+    steps.append({"ev": "branch", "name": "other"})
+    steps.append(w("top.txt", "t2\n"))
+    steps.append({"ev": "add", "paths": ["top.txt"]})
+    steps.append({"ev": "commit", "msg": "third"})                       # main is ahead of other
+    steps.append({"ev": "switch", "name": "other"})                      # between branches at different commits
+    steps.append({"ev": "switch", "name": "main"})
+    steps.append({"ev": "branchr", "name": "trunk"})
+    steps.append({"ev": "branchd", "name": "other"})
     save("fs_corpus2", ["C15", "C16"], steps)
 
 
